@@ -211,6 +211,9 @@ func newDynamicQueueInternal(name string, leaf bool, parent *Queue, appQueueMapp
 	sq.isManaged = false
 	sq.isLeaf = leaf
 	sq.appQueueMapping = appQueueMapping
+	// must be set before the queue becomes visible through the parent: the queue cleaner may remove the still empty
+	// queue at once and sends an event when it does
+	sq.queueEvents = schedEvt.NewQueueEvents(events.GetEventSystem())
 
 	// add to the parent, we might have a partition lock already
 	// still need to make sure we lock the parent so we do not interfere with scheduling
@@ -220,7 +223,6 @@ func newDynamicQueueInternal(name string, leaf bool, parent *Queue, appQueueMapp
 	}
 
 	sq.UpdateQueueProperties(nil)
-	sq.queueEvents = schedEvt.NewQueueEvents(events.GetEventSystem())
 	log.Log(log.SchedQueue).Info("dynamic queue added to scheduler",
 		zap.String("queueName", sq.QueuePath))
 	sq.queueEvents.SendNewQueueEvent(sq.QueuePath, sq.isManaged)
